@@ -97,6 +97,10 @@ class Covariance:
                     out.append(dict(module=mod, la=la, lb=lb, g=chunk))
                 if la + lb <= (2 if tier == "quick" else 3) and not (mod in ("eri", "moment2", "angmom") and la + lb > 2):
                     out.append(dict(module=mod, la=la, lb=lb, g=["rotz"]))
+            # generalized shells (several segments): the segment axes must ride along unchanged
+            if mod not in ("eri", "eval_deriv"):
+                out.append(dict(module=mod, la=1, lb=0, g=[5, "rotz"], M=[2, 2]))
+                out.append(dict(module=mod, la=1, lb=1, g=[29], M=[2, 3]))
         return out
 
     def run(self, shape, M):
@@ -147,12 +151,13 @@ class Covariance:
         B = M.array(A + M.vec("BA", 3))
         pt = M.array(A + M.vec("CA", 3))
         O = M.array(A + M.vec("OA", 3))
+        Ma, Mb = shape.get("M", [1, 1])
         ea, eb = M.vec("a", 1, "pos"), M.vec("b", 1, "pos")
-        da, db = M.vec("da", (1, 1), "pos"), M.vec("db", (1, 1), "pos")
+        da, db = M.vec("da", (1, Ma), "pos"), M.vec("db", (1, Mb), "pos")
 
         def shells(cA, cB):
-            s1 = make_shell(M, la, cA, da, ea, norm_cont=M.vec("n1", (1, (la + 1) * (la + 2) // 2), "pos"))
-            s2 = make_shell(M, lb, cB, db, eb, norm_cont=M.vec("n2", (1, (lb + 1) * (lb + 2) // 2), "pos"))
+            s1 = make_shell(M, la, cA, da, ea, norm_cont=M.vec("n1", (Ma, (la + 1) * (la + 2) // 2), "pos"))
+            s2 = make_shell(M, lb, cB, db, eb, norm_cont=M.vec("n2", (Mb, (lb + 1) * (lb + 2) // 2), "pos"))
             return s1, s2
 
         zero = [F.num(0)] * 3
@@ -195,9 +200,10 @@ class Covariance:
                                 exp = exp + g0[w][0, j, 0] * d * g[v][w]
                     M.eq(nm + "/gradient" + tag((i, v)), g1[v][0, i, 0], exp)
             return
-        out0, kind, orders = self.call(M, module, s1, s2, pt, O)
-        out1, _, _ = self.call(M, module, r1, r2, pt2, O2)
+        full0, kind, orders = self.call(M, module, s1, s2, pt, O)
+        full1, _, _ = self.call(M, module, r1, r2, pt2, O2)
         if kind == "eri":
+            out0, out1 = full0, full1
             for idx in np.ndindex(len(ca), len(cb), len(cb), len(ca)):
                 exp = F.num(0)
                 for jdx in np.ndindex(len(ca), len(cb), len(cb), len(ca)):
@@ -207,13 +213,23 @@ class Covariance:
                     exp = exp + out0[0, jdx[0], 0, jdx[1], 0, jdx[2], 0, jdx[3]] * ds[0] * ds[1] * ds[2] * ds[3]
                 M.eq(nm + "/out" + tag(idx), out1[0, idx[0], 0, idx[1], 0, idx[2], 0, idx[3]], exp)
             return
+        okshape = full0.shape == full1.shape and full0.shape[:4] == (Ma, len(ca), Mb, len(cb))
+        M.true(nm + "/shape", okshape, "%s %s, expected (M1, L1, M2, L2, ..) = %s" % (full0.shape, full1.shape, (Ma, len(ca), Mb, len(cb))))
+        if not okshape:
+            return
+        pfull = None
         if kind == "axial":
             # L about the origin is not translation invariant: L' = det(g) g (L) + t x p'   (p' = g p)
-            p0 = M.mods["gbasis.integrals.momentum"].MomentumIntegral.construct_array_contraction(s1, s2)
+            pfull = M.mods["gbasis.integrals.momentum"].MomentumIntegral.construct_array_contraction(s1, s2)
         if kind == "moment":
             Dm = monomial_rep(F, g, orders)
-        for i in range(len(ca)):
-            for k in range(len(cb)):
+        for ma in range(Ma):
+          for mb in range(Mb):
+            out0, out1 = full0[ma:ma + 1, :, mb:mb + 1], full1[ma:ma + 1, :, mb:mb + 1]
+            p0 = pfull[ma:ma + 1, :, mb:mb + 1] if pfull is not None else None
+            seg = "" if (Ma, Mb) == (1, 1) else "/seg%d.%d" % (ma, mb)
+            for i in range(len(ca)):
+              for k in range(len(cb)):
                 nvec = 1 if kind == "scalar" else (len(orders) if kind == "moment" else 3)
                 for v in range(nvec):
                     exp = F.num(0)
@@ -247,7 +263,7 @@ class Covariance:
                                     if Dm[v][w] is not None:
                                         exp = exp + out0[0, j, 0, l_, w] * dj * dl * Dm[v][w]
                     got = out1[0, i, 0, k] if kind == "scalar" else out1[0, i, 0, k, v]
-                    M.eq(nm + "/out" + tag((i, k, v)), got, exp)
+                    M.eq(nm + seg + "/out" + tag((i, k, v)), got, exp)
 
 
 def out0_p(p0, j, l_, w):
